@@ -15,7 +15,13 @@ def json_lines(r, tag: str, limit: int | None = None, rng=None, dedupe: bool = F
     import json
 
     from common import tagged_lines
-    lines, total = tagged_lines(r, tag, limit, rng, dedupe)
+    if isinstance(r, str):      # small outputs kept in memory (data-type models: FST, VEC, ...)
+        lines = [line for line in r.splitlines() if line.startswith('"' + tag)]
+        total = len(lines)
+        if limit is not None and rng is not None and total > limit:
+            lines = rng.sample(lines, limit)
+    else:
+        lines, total = tagged_lines(r, tag, limit, rng, dedupe)
     json_lines.last_total = total
     return [json.loads(json.loads(line)[len(tag):]) for line in lines]
 
